@@ -552,19 +552,17 @@ class SkyCoordTableCoordinate(BaseTableCoordinate):
             # The slice is recorded on a new object: this one must keep describing the unsliced table.
             new = type(self)(self.table, mesh=True, names=self.names, physical_types=self.physical_types)
             new._dropped_world_dimensions = copy.deepcopy(self._dropped_world_dimensions)
-            # Resolve negative, open and out-of-range bounds against the current length of each component.
-            resolved_item = []
-            for new_slc, old_slc, length in zip(sane_item, self._slice, self.shape):
+            # Apply the new item to what the slice already held selects: this resolves negative, open and
+            # out-of-range bounds against the current length of each component and keeps its start.
+            new._slice = []
+            for new_slc, old_slc, full_length in zip(sane_item, self._slice, self.shape):
                 if isinstance(old_slc, slice):
-                    length = len(range(length)[old_slc])
-                if isinstance(new_slc, slice):
-                    start, stop, _ = new_slc.indices(length)
-                    new_slc = slice(start, max(start, stop))
-                elif isinstance(old_slc, slice):
-                    new_slc = range(length)[new_slc]
-                resolved_item.append(new_slc)
-            # The slice already held is applied first, then the new one.
-            new._slice = [self.combine_slices(b, a) for a, b in zip(resolved_item, self._slice)]
+                    selected = range(full_length)[old_slc][new_slc]
+                    if isinstance(selected, range):
+                        selected = slice(selected.start, max(selected.start, selected.stop))
+                    new._slice.append(selected)
+                else:
+                    new._slice.append(self.combine_slices(old_slc, new_slc))
             if all([isinstance(s, Integral) for s in new._slice]):
                 # Here we rebuild the SkyCoord with the slice applied to the individual components.
                 new_sc = SkyCoord(self.table.realize_frame(type(self.table.data)(*new._sliced_components)))
